@@ -74,6 +74,14 @@ CHECKS["C14"] = {
     "design_ref": "DESIGN.md 2.3, 3 (C14)",
 }
 
+CHECKS["C12"] = {
+    "engine": "W",
+    "technique": "deterministic simulation of the two-party world (stub ranks write, real loader reads), seeded fault-free search over worlds x level/value/position predicates; truncated ground-truth tree as reference model",
+    "text": "Exploration, fault-free world search: every cell of the stub-written tree (leaf and refined) stores a unique value; the real loader reads with a level predicate (<=, <, interval, ==, !=), alone or ANDed with value/position predicates and with other groups present. The rows must be exactly the cells of the model tree truncated at the highest accepted level L that satisfy the predicates, carrying the stored coarse values; meta['lmax'] = L; when all levels up to L are accepted the rows tile the box exactly once. No schedule or fault is involved; sampling, not proof.",
+    "note": "Trusted: as C01 (writer, unit table).",
+    "design_ref": "DESIGN.md 2.3, 3 (C12)",
+}
+
 PENDING_REASON = "check not built yet in this snapshot of /verif (planned and applicable, see DESIGN.md section 3); not claimed until its check exists"
 ALL = ["C%02d" % i for i in range(1, 21)]
 
